@@ -443,8 +443,8 @@ class World:
             if rng.random() < 0.25:
                 key = key.swapcase()
             alias = rep.key is not None and rng.random() < 0.3
-            if alias:
-                key = rep.key
+            if alias or (rep.key is not None and rng.random() < 0.25):
+                key = rep.key         # the name the replacement already goes by (its own pointer, or an equal string)
             old = self.lookup(p, key, cs)
             if alias:
                 self.emit('repo_self %d %d %d' % (sp, self.handle(rep), 1 if cs else 0), ['1'] if old else ['0'])
